@@ -38,6 +38,22 @@ Theorem C09_commit_add : forall (K : Fld) (h : K) gs ms ms' bf bf', length ms = 
   commit h gs (map2 fadd ms ms') (bf + bf') = commit h gs ms bf + commit h gs ms' bf'.
 Proof. exact commit_add. Qed.
 
+(** degenerate inputs: a zero blinding factor, or an all-zero message, change nothing in the formula *)
+Theorem C09_commit_zero_bf : forall (K : Fld) (h : K) gs ms, commit h gs ms f0 = ip gs ms.
+Proof. exact commit_zero_bf. Qed.
+
+Theorem C09_commit_zero_message : forall (K : Fld) (h : K) gs n bf, commit h gs (repeat f0 n) bf = (h * bf)%fld.
+Proof. exact commit_zero_message. Qed.
+
+Theorem C09_zero_bf_still_binds : forall (K : Fld) (h : K) gs ms j v,
+  (j < length ms)%nat -> (j < length gs)%nat -> nth j gs f0 <> f0 -> v <> nth j ms f0 ->
+  verify_opening h gs (commit h gs ms f0) f0 (upd j v ms) = false.
+Proof. exact zero_bf_still_binds. Qed.
+
+Theorem C09_zero_message_commitment_is_not_identity : forall (K : Fld) (h : K) gs n bf, h <> f0 -> bf <> f0 ->
+  commit h gs (repeat f0 n) bf <> f0.
+Proof. exact zero_message_commitment_is_not_identity. Qed.
+
 (** non-vacuity at the BLS12-381 scalar field: a concrete opening, one changed coordinate, one changed factor *)
 Example C09_nonvacuous :
   let h := fq 11 in let gs := [fq 13; fq 17; fq 19] in let ms := [fq 0; fq 1; fq (-1)] in
@@ -54,4 +70,8 @@ Print Assumptions C09_single_coordinate_iff.
 Print Assumptions C09_wrong_bf_rejects.
 Print Assumptions C09_wrong_commitment_rejects.
 Print Assumptions C09_commit_add.
+Print Assumptions C09_commit_zero_bf.
+Print Assumptions C09_commit_zero_message.
+Print Assumptions C09_zero_bf_still_binds.
+Print Assumptions C09_zero_message_commitment_is_not_identity.
 Print Assumptions C09_nonvacuous.
